@@ -85,7 +85,7 @@ class Effects:
         for bi in fl.cfg.reachable():
             blk = body.blocks[bi]
             t = blk['term']
-            if t['k'] == 'call':
+            if t['k'] == 'call' and callee(t) != 'std::future::Future::poll':
                 c = callee_resolved(t) or callee(t)
                 if c in self.F.bodies and c != body.path and self.is_mutating(c):
                     out.append((bi, 'call', c))
